@@ -11,6 +11,8 @@
 #include <string.h>
 #include <sys/mman.h>
 #include <sys/stat.h>
+#include <sys/wait.h>
+#include <spawn.h>
 #include <unistd.h>
 
 #include <yara.h>
@@ -1013,12 +1015,42 @@ int ys_scan(ys_rules* r, ys_scanner* s, const uint8_t* data, size_t len,
     free(exact);
     break;
   }
+  case YS_SCAN_PROC:
+    if (s)
+      rc = yr_scanner_scan_proc(s->s, o->pid);
+    else
+      rc = yr_rules_scan_proc(r->r, o->pid, o->flags, scan_cb, &sc, o->timeout);
+    break;
   default:
     rc = -2;
   }
   sb_printf(&sc.out, "R %d\n", rc);
   *trace = sb_take(&sc.out);
   return rc;
+}
+
+/* ------------------------------------------------------- idle child process */
+extern char** environ;
+int ys_spawn_idle(void)
+{
+  pid_t pid = -1;
+  char* argv[] = {(char*) "sleep", (char*) "600", NULL};
+  HARNESS_ALLOC_BEGIN();
+  int rc = posix_spawn(&pid, "/bin/sleep", NULL, NULL, argv, environ);
+  HARNESS_ALLOC_END();
+  if (rc != 0)
+    return -1;
+  usleep(50000); /* let it reach nanosleep */
+  return (int) pid;
+}
+
+void ys_kill_idle(int pid)
+{
+  if (pid > 0)
+  {
+    kill(pid, SIGKILL);
+    waitpid(pid, NULL, 0);
+  }
 }
 
 /* --------------------------------------------------- module introspection */
